@@ -73,9 +73,71 @@ func randKey(r *rand.Rand, Fx *facts, kind string, allowPanic bool) int {
 }
 
 type emitter struct {
-	c   *fw.Ctx
-	F   *facts
-	non map[uint64]struct{}
+	c      *fw.Ctx
+	F      *facts
+	non    map[uint64]struct{}
+	shrunk map[string]int
+}
+
+// safeRun executes a line on the real code without recording it.
+func safeRun(F *facts, line string) (res string) {
+	defer func() {
+		if r := recover(); r != nil {
+			res = "panic"
+		}
+	}()
+	f := strings.Fields(line)
+	if len(f) < 2 {
+		return "bad-op"
+	}
+	return runLine(F, f[1:])
+}
+
+func hasUnclassified(probs []problem, oracle string) bool {
+	for _, p := range probs {
+		if p.oracle == oracle && p.class == "" {
+			return true
+		}
+	}
+	return false
+}
+
+// shrink deletes op tokens (then shortens hex payloads) while the oracle still
+// fails outside every known-finding class. Delta debugging over the op list; every
+// candidate is re-executed on the real code.
+func (e *emitter) shrink(kind string, toks []string, oracle string) []string {
+	fails := func(ts []string) bool {
+		line := "C19 " + kind + " " + strings.Join(ts, " ")
+		return hasUnclassified(audit(e.F, line, safeRun(e.F, line)), oracle)
+	}
+	cur := append([]string{}, toks...)
+	for changed := true; changed; {
+		changed = false
+		for i := len(cur) - 1; i >= 0; i-- {
+			cand := append(append([]string{}, cur[:i]...), cur[i+1:]...)
+			if len(cand) > 0 && fails(cand) {
+				cur, changed = cand, true
+			}
+		}
+	}
+	// shorten values: try the empty value and a one-letter value for every set op
+	for i, t := range cur {
+		f := strings.Split(t, ":")
+		if (f[0] == "s" || f[0] == "qs") && len(f) == 4 {
+			for _, v := range []string{"-", "61"} {
+				if f[3] == v {
+					break
+				}
+				cand := append([]string{}, cur...)
+				cand[i] = strings.Join([]string{f[0], f[1], f[2], v}, ":")
+				if fails(cand) {
+					cur = cand
+					break
+				}
+			}
+		}
+	}
+	return cur
 }
 
 func (e *emitter) emit(stream, kind string, toks []string, oracles bool) {
@@ -119,10 +181,20 @@ func (e *emitter) emit(stream, kind string, toks []string, oracles bool) {
 	e.c.Tally(6)
 	seen := map[string]bool{}
 	for _, p := range probs {
-		if !seen[p.oracle] {
-			seen[p.oracle] = true
-			e.c.Check(p.oracle, i)
+		if seen[p.oracle] {
+			continue
 		}
+		seen[p.oracle] = true
+		// a failure outside the known classes is reported on a minimised sequence first
+		if hasUnclassified(probs, p.oracle) && e.shrunk[p.oracle] < 12 {
+			e.shrunk[p.oracle]++
+			if small := e.shrink(kind, toks, p.oracle); len(small) < len(toks) {
+				si, _ := e.c.Op("C19 " + kind + " " + strings.Join(small, " "))
+				e.c.Count("stream:shrunk")
+				e.c.Check(p.oracle, si)
+			}
+		}
+		e.c.Check(p.oracle, i)
 	}
 }
 
@@ -313,7 +385,7 @@ func exhaustive(alpha []string, maxLen int, f func([]string)) {
 
 func run(c *fw.Ctx) {
 	Fx := F()
-	e := &emitter{c: c, F: Fx, non: map[uint64]struct{}{}}
+	e := &emitter{c: c, F: Fx, non: map[uint64]struct{}{}, shrunk: map[string]int{}}
 	r := c.Rng
 
 	// 1. small-scope exhaustive streams (two registers, two keys, two values)
@@ -369,9 +441,6 @@ func run(c *fw.Ctx) {
 			op = "q"
 		}
 		e.emit("soup", kind, []string{fmt.Sprintf("%s:0:%s", op, hexv(soup(r, Fx, kind))), "D:1", "t:0"}, true)
-	}
-	for range e.non {
-		break
 	}
 	c.Note(fmt.Sprintf("distinct non-trivial lines (hash count): %d", len(e.non)))
 	for h := range e.non {
